@@ -16,11 +16,12 @@ import time
 
 import ufl
 import ufl.classes as C
-from ufl import as_tensor, as_ufl, as_vector, conditional, lt, sin, variable, zero
+from ufl import Coefficient, FunctionSpace, as_tensor, as_ufl, as_vector, conditional, lt, sin, variable, zero
 from ufl.classes import ComponentTensor, Indexed, IndexSum, MultiIndex, Zero
 from ufl.core.multiindex import FixedIndex, Index
 
 from checks.common import coef, mesh
+from vlib import elements as el
 from vlib import harness, ring, tv
 from vlib.denote import Env
 from vlib.harness import outcome
@@ -59,6 +60,11 @@ class World:
         self.T = coef(self.dom, (dim, dim, dim), count=306)
         self.q = coef(self.dom, (3,), count=307)
         self.M = coef(self.dom, (dim, 3), count=308)
+        self.Ssym = Coefficient(FunctionSpace(self.dom, el.sym2(self.dom.ufl_cell())), count=297) if dim == 2 else None
+        # a tensor space assembled component by component (no two components share a degree of freedom)
+        cc = self.dom.ufl_cell()
+        self.Sfull = Coefficient(FunctionSpace(self.dom, el.Symmetric({(0, 0): 0, (0, 1): 1, (1, 0): 2, (1, 1): 3},
+                                                                  [el.P(cc, 1) for _ in range(4)])), count=298) if dim == 2 else None
         self.I = [Index(count=9100 + k) for k in range(3)]
         self.fresh = 0
 
@@ -97,6 +103,19 @@ def seeded(W):
         P(idx(ct(P(idx(v, i), isum(P(idx(A, i, i), idx(w, i)), i)), i), j), idx(w, j)), j)
     S["shadow/inner-ct-rebinds-ct-index"] = isum(
         P(idx(ct(P(idx(v, i), idx(ct(idx(w, i), i), 0)), i), j), idx(w, j)), j)
+    S["capture/chain-ik-ji"] = isum(isum(P(idx(ct(isum(P(idx(A, i, k), idx(B, k, j)), k), i, j), k, i), idx(A, k, i)), i), k)
+    S["capture/chain-ij-jk"] = isum(isum(P(idx(ct(isum(P(idx(A, i, k), idx(B, k, j)), k), i, j), j, k), idx(A, j, k)), k), j)
+    S["capture/chain-three"] = isum(isum(isum(P(idx(ct(isum(P(idx(T, i, j, k), idx(w, k)), k), i, j), k, i), idx(T, k, i, j)), j), i), k)
+    if W.Ssym is not None:
+        # a symmetric tensor-valued coefficient next to a plain one of the same shape (component canonicalisation per space)
+        Sy = W.Ssym
+        S["sym/sym-then-plain"] = isum(isum(P(idx(Sy, i, j), idx(A, i, j)), j), i)
+        S["sym/plain-then-sym"] = isum(isum(P(idx(A, i, j), idx(Sy, j, i)), j), i)
+        S["sym/fixed"] = P(idx(Sy, 1, 0), idx(A, 1, 0)) + P(idx(Sy, 0, 1), idx(B, 1, 0))
+        Sf = W.Sfull
+        S["sym/sym-then-full"] = isum(isum(P(idx(Sy, i, j), idx(Sf, i, j)), j), i)
+        S["sym/full-then-sym"] = isum(isum(P(idx(Sf, j, i), idx(Sy, i, j)), j), i)
+        S["sym/fixed-two-spaces"] = P(idx(Sy, 1, 0), idx(Sf, 1, 0)) + P(idx(Sf, 0, 1), idx(Sy, 0, 1))
     S["shadow/sum-twice-same-index"] = P(isum(idx(v, i), i), isum(idx(w, i), i))
     S["shadow/sum-in-sum-same-index"] = isum(P(idx(v, i), isum(idx(A, i, i), i)), i)
     S["shadow/ct-rebinding-outer"] = isum(P(isum(P(idx(ct(idx(A, i, j), i), j), idx(v, j)), j), idx(w, i)), i)
